@@ -16,6 +16,7 @@ From QV.Hash Require HashtblModel HashtblSpec.
 From QV.Seq Require ListtblModel ListtblSpec.
 From QV.Conf Require IniModel AconfModel IniSpec AconfSpec.
 From QV.Gen Require Consts.
+From QV.Alloc Require Ledger Scripts.
 Extraction Blacklist List String Int.
 Extraction "../ocaml/gen/enc_model.ml" Res.num_anchor
    EncModel.url_encode EncModel.url_dec_buf EncModel.url_decode EncModel.hex_encode EncModel.hex_dec_buf EncModel.hex_decode
@@ -44,3 +45,5 @@ Extraction "../ocaml/gen/listtbl_model.ml" Res.num_anchor
    ListtblModel.lt_init ListtblModel.lt_step ListtblModel.payload ListtblSpec.lt_sstep ListtblSpec.mkCfg.
 Extraction "../ocaml/gen/conf_model.ml" Res.num_anchor
    IniModel.ini_parse_str AconfModel.aconf_parse AconfModel.aconf_tokenize AconfModel.tk_buf AconfModel.is_str_number AconfModel.is_str_bool AconfModel.maxline Consts.QCONF_MAX_SUBSTITUTIONS IniSpec.ini_wf IniSpec.ini_render IniSpec.ini_eval AconfSpec.wf_nodes AconfSpec.adepths AconfSpec.aconf_render AconfSpec.aconf_srun AconfSpec.aconf_count AconfSpec.int_form AconfSpec.float_form AconfSpec.bool_form.
+Extraction "../ocaml/gen/alloc_model.ml" Res.num_anchor
+   Ledger.ledger0 Ledger.safeb Ledger.run Scripts.gblocks Scripts.vblocks Scripts.script_ctor Scripts.script_qhashtbl Scripts.script_wrapper Scripts.script_qhasharr Scripts.script_qvector Scripts.tree_step Scripts.hash_step Scripts.ltbl_step Scripts.list_step Scripts.harr_step Scripts.vec_step Scripts.script_free Scripts.script_vec_free.
